@@ -12,7 +12,7 @@ from .common import Report
 from .proto import SimPipeline
 from .protocheck import Engine, replay_witness, run_schedule, replay_trace
 
-PROPS = ('C04_Bounded',)
+PROPS = ('C04_Bounded', 'C04_NoEarlyEvict')
 BOUND = 9
 
 
@@ -86,6 +86,80 @@ def stall_runs(eng, rep, topo, victim, n, steps, tag):
     return mx
 
 
+class EvictWatch:
+    """C04_NoEarlyEvict on the real sender g: every time-out eviction ('disconnected output ... (timeout)' of zeromq.py) is
+    compared with the time at which g itself took the last request of that client from its socket (g's own clock)."""
+
+    def __init__(self, pipe, g):
+        import json as _json
+        self.pipe, self.g, self.heard, self.evictions = pipe, g, {}, []
+        w = pipe.world
+        snd = pipe.filters[g].mq.sender
+        watch = self
+
+        for pull in snd.pulls:
+            orig = pull.recv_multipart
+
+            def recv(*a, _o=orig, **k):
+                msg = _o(*a, **k)
+                try:
+                    watch.heard[_json.loads(bytes(msg[0]).decode())['cid']] = w.time_ns()
+                except Exception:   # noqa
+                    pass
+                return msg
+            pull.recv_multipart = recv
+
+        class LogProxy:          # the module's logger (logging is disabled in the harness: the call itself is observed)
+            def __init__(self_, orig):
+                self_._o = orig
+
+            def __getattr__(self_, k):
+                return getattr(self_._o, k)
+
+            def info(self_, m, *a, **k):
+                m = str(m)
+                if m.startswith('disconnected output: ') and m.endswith('(timeout)') and w.cur is not None and w.cur.name == g:
+                    cid = m[len('disconnected output: '):].split()[0]
+                    watch.evictions.append((cid, w.time_ns(), watch.heard.get(cid)))
+                return self_._o.info(m, *a, **k)
+        self.orig_logger = pipe.Z.logger
+        pipe.Z.logger = LogProxy(self.orig_logger)
+
+    def close(self):
+        self.pipe.Z.logger = self.orig_logger
+
+    def early(self):
+        ct = self.pipe.Z.ZMQ_CONN_TIMEOUT * 1_000_000
+        return [(cid, te, th) for cid, te, th in self.evictions if th is not None and te - th < ct]
+
+
+def blocking_labels(eng, rep, topo, g, labels, origin):
+    """replay a TLC schedule on a pipeline whose publisher g uses the blocking send(); judge g's time-out evictions"""
+    from . import proto
+    pipe = SimPipeline(topo)
+    watch = None
+    try:
+        pipe.start()
+        watch = EvictWatch(pipe, g)
+        beh = [{'lbl': ('init', '', 0)}] + [{'lbl': l} for l in labels]
+        proto.replay(topo, beh, pipe=pipe, compare=False)
+        run_schedule(pipe, common.rng(eng.ctx, origin + '/cont'), 300, p_timeout=0.05, quiet=200)
+        rep.case((topo.name, origin), nontrivial=bool(watch.evictions) or any(pipe.delivered.values()))
+        rep.traces += 1
+        how = {'kind': 'blocking', 'topo': topo.name, 'topo_def': topo.to_dict(), 'seed': eng.ctx.seed, 'origin': origin,
+               'publisher': g, 'trace': [list(t) for t in pipe.world.trace]}
+        for cid, te, th in watch.early():
+            rep.violation(f'C04_NoEarlyEvict: {g} (blocking send) dropped client {cid} as timed out {round((te - th) / 1e6)} ms after '
+                          f'taking its last request (ZMQ_CONN_TIMEOUT = {pipe.Z.ZMQ_CONN_TIMEOUT} ms): the publisher no longer '
+                          f'waits for a consumer it heard from  [{origin}, {topo.name}]',
+                          {'how': how, 'evictions': watch.evictions}, {'formula': 'C04_NoEarlyEvict', 'topology': topo.name})
+            break
+    finally:
+        if watch:
+            watch.close()
+        pipe.close()
+
+
 def stall_labels(eng, rep, topo, labels, origin):
     """replay a TLC schedule containing a Stall step on the real code, continue promptly, count publishes after the stall"""
     from .protocheck import run_labels
@@ -128,7 +202,15 @@ def scenarios(quick):
         # `requested` not cleared on publish: shows with a second consumer whose requests keep triggering the recomputation
         mut=[(T.bal_listen(maxseq=4), 'SpecZL', ['bal_eph_reenables'], B, dict(st, victims=['W1'], run_maxseq=40), 'C04_Tight2')] +
             ([] if quick else [(T.tee(maxseq=9), 'SpecZL', ['no_clear_req'], dict(pq=14, lq=6), dict(st, victims=['B'], sim=(30000, 400)), 'C04_Tight6')]),
-        conf=[(T.chain3(maxseq=6), 'SpecPrompt', 8 if quick else 80, 300, dict(max_faults=1, fault_kinds=['stall'], victims=['K', 'A']))],
+        conf=[(T.chain3(maxseq=6), 'SpecPrompt', 8 if quick else 80, 300, dict(max_faults=1, fault_kinds=['stall'], victims=['K', 'A'])),
+              # a publisher that is an application using the blocking send() (timeout = None), with connection time-outs
+              (T.blocking(T.tee(maxseq=3, conn_ticks=2), ['S']), 'SpecPrompt', 10 if quick else 150, 200, {})],
+        # blocking publishers: a client is dropped only after ZMQ_CONN_TIMEOUT of silence, however long one send() call lasts
+        blk_mc=[(T.blocking(T.chain2(maxseq=2, conn_ticks=2)), 'SpecPrompt', {}),
+                (T.blocking(T.tee(maxseq=1, conn_ticks=2), ['S']), 'SpecZL', {})] +
+               ([] if quick else [(T.blocking(T.tee(maxseq=2, conn_ticks=2), ['S']), 'SpecZL', {}),
+                                  (T.blocking(T.chain3(maxseq=2, conn_ticks=2)), 'SpecPrompt', {})]),
+        blk_mut=[(T.blocking(T.tee(maxseq=3, conn_ticks=2), ['S']), 'SpecPrompt', 'S', ['stale_t'], {})],
         stall=[(T.chain2(maxseq=40), 'K', 6 if quick else 100, 1500, 'sole'),
                (T.tee(maxseq=40), 'B', 6 if quick else 100, 2000, 'one-of-two'),
                (T.chain3(maxseq=40), 'K', 6 if quick else 100, 2000, 'behind-relay'),
@@ -138,6 +220,8 @@ def scenarios(quick):
                (T.eph_first(maxseq=40), 'K', 4 if quick else 60, 2000, 'eph-first'),
                # a non-balanced publisher bound to two addresses: the consumer on the other address must still hold it back
                (T.two_addr(maxseq=40), 'K', 4 if quick else 60, 2000, 'two-addresses'),
+               # the publisher is an application using the blocking send()
+               (T.blocking(T.tee(maxseq=40), ['S']), 'B', 4 if quick else 60, 2000, 'blocking-publisher'),
                # a worker of a balanced splitter with a '?' listener on its endpoint: the listener's requests must not
                # pull frames onto the endpoint of the stalled worker
                (T.balance2_eph(maxseq=60, slow1=False), 'W1', 4 if quick else 60, 2500, 'balanced-listener'),
@@ -168,6 +252,15 @@ def run(ctx):
             labels = eng2.mutation_labels(topo, spec, mut, invariant=inv, bounds=bounds, timeout=200 if ctx.quick else 900, sim=sim, **kw)
             if labels:
                 stall_labels(eng, rep, rtopo, labels, f'counterexample of design mutation {mut}')
+    for topo, spec, bounds in sc['blk_mc']:
+        eng.model_check(topo, spec, invariants=('C04_NoEarlyEvict', 'C01', 'C02', 'NoCrash', 'TypeOK'), bounds=bounds,
+                        timeout=900 if ctx.quick else 3000, name=f'{topo.name}/{spec}/C04_NoEarlyEvict')
+    for topo, spec, g, muts, bounds in sc['blk_mut']:
+        eng2 = Engine(ctx, rep, ())
+        for mut in muts:
+            labels = eng2.mutation_labels(topo, spec, mut, invariant='C04_NoEarlyEvict', bounds=bounds, timeout=300 if ctx.quick else 900)
+            if labels:
+                blocking_labels(eng, rep, topo, g, labels, f'counterexample of design mutation {mut}')
     for topo, spec, num, depth, kw in sc['conf']:
         eng.conformance(topo, spec, num, depth, **kw)
     mx = 0
@@ -184,6 +277,20 @@ def replay(ctx):
     how = w['witness']['how']
     from .proto import Topo
     topo = Topo.from_dict(how['topo_def'])
+    if how.get('kind') == 'blocking':
+        pipe = SimPipeline(topo)
+        pipe.start()
+        watch = EvictWatch(pipe, how['publisher'])
+        try:
+            replay_trace(topo, [tuple(t) for t in how['trace']], pipe=pipe)
+            print('time-out evictions (client, at, last request taken at):', watch.evictions)
+            if watch.early():
+                print(f'VIOLATION property=C04 replay={ctx.replay}')
+                return 1
+            return 0
+        finally:
+            watch.close()
+            pipe.close()
     if 'victim' not in how:
         return replay_witness(ctx, PROPS)
     pipe = replay_trace(topo, [tuple(t) for t in how['trace']])
